@@ -23,10 +23,10 @@ Reading of the Python (see also ASSUMPTIONS at the end of the generated file):
   * Attribute assignment, augmented assignment, `setattr`, `del x.a` through x are `write x`.
     Writes through a loaded attribute (`p._time_zone._hours = …`) are writes through an arbitrary
     address and can never be certified.
-  * Control flow: if/while/for/break/continue/return/raise/yield, loops by fixpoint over reaching
-    definitions, φ as `mov`.  The statement *set* is what is emitted (order is irrelevant to the
+  * Control flow: if/while/for/break/continue/return/raise/yield/try, loops by fixpoint over
+    reaching definitions, φ as `mov`; a handler may start after any statement of its `try` body.  The statement *set* is what is emitted (order is irrelevant to the
     semantics).
-  * Anything else (try, with, lambda, nested def, global, walrus, super(), unknown callables,
+  * Anything else (with, lambda, nested def, global, walrus, super(), unknown callables,
     bound methods escaping, decorators other than @property, `__setattr__`/`__getattr__`/`__new__`
     definitions, …) raises TranslateError.
 """
@@ -475,6 +475,7 @@ class MethodTranslator:
         self.an = analysis
         self.m = meth
         self.loops = []
+        self.tries = []
         self.locals = set()
 
     # -- helpers ---------------------------------------------------------------------------
@@ -617,7 +618,48 @@ class MethodTranslator:
         return env
 
     def stmt(self, node, env):
+        out = self.stmt1(node, env)
+        # an exception may leave a `try` body after any statement, at any depth
+        for frame in self.tries:
+            if out is not None:
+                frame.append(dict(out))
+        return out
+
+    def try_stmt(self, node, env):
+        """try/except/else/finally: a handler may start in the environment before the body or
+        after any statement inside it; `finally` runs on every way out."""
+        if getattr(node, "handlers", None) is None or type(node).__name__ == "TryStar":
+            err(node, "try* statement", self.m)
+        if node.finalbody:
+            for part in node.body + node.handlers + node.orelse:
+                for sub in ast.walk(part):
+                    if isinstance(sub, (ast.Break, ast.Continue)):
+                        err(sub, "break / continue inside try ... finally", self.m)
+        seen = [dict(env)]
+        self.tries.append(seen)
+        body_end = self.block(node.body, dict(env))
+        self.tries.pop()
+        ends = [self.block(node.orelse, body_end) if body_end is not None else None]
+        entry = self.merge(seen, ("try", id(node)))
+        for handler in node.handlers:
+            henv = dict(entry)
+            if handler.type is not None:
+                self.ev(handler.type, henv)
+            if handler.name:
+                henv[handler.name] = BOT      # exception objects are not tracked values
+            ends.append(self.block(handler.body, henv))
+        if not node.finalbody:
+            return self.merge(ends, ("tryend", id(node)))
+        normal = self.merge(ends, ("tryend", id(node)))
+        # once for every way out (also exceptions and returns), once for the normal continuation
+        self.block(node.finalbody, self.merge(seen + [e for e in ends if e is not None],
+                                              ("tryfin", id(node))))
+        return self.block(node.finalbody, normal) if normal is not None else None
+
+    def stmt1(self, node, env):
         m = self.m
+        if isinstance(node, ast.Try):
+            return self.try_stmt(node, env)
         if isinstance(node, ast.Expr):
             if isinstance(node.value, ast.Yield):
                 val = self.ev(node.value.value, env) if node.value.value is not None else BOT
